@@ -335,7 +335,7 @@ fn main() {
                     ctx.exhaustive.insert(format!("all Soes term lists of length <= {}, n={}", max_exh, n), true);
                 }
                 // sampled lists of length 3..4 over n <= 4
-                let reps = if thorough { 20000 } else { 1500 };
+                let reps = if thorough { 300000 } else { 2000 };
                 for _ in 0..reps {
                     let la = rng.range(0, 4);
                     let lb = rng.range(0, 4);
@@ -345,7 +345,7 @@ fn main() {
                 }
             }
             _ => {
-                let reps = if thorough { 6000 } else { 400 };
+                let reps = if thorough { 120000 } else { 600 };
                 for _ in 0..reps {
                     // random Soes up to n = 8
                     let nn = rng.range(5, 8);
